@@ -107,5 +107,6 @@ def resample_to_approx_dt(asig, target_dt=0.01, even=True):
     new_npts = factor * asig.npts
     if even:
         new_npts = 2 * int(new_npts / 2)
+    new_npts = int(round(new_npts))  # scipy needs an integer count (factor is a float when decimating or dt == target_dt)
     acc_interp = resample(asig.values, new_npts)
     return eqsig.AccSignal(acc_interp, asig.dt / factor)
